@@ -23,11 +23,17 @@ import atheris  # noqa: E402
 TARGET = os.environ.get("OQ_FUZZ_TARGET", "pauli_struct")
 INSTR = {"pauli_struct": ["orquestra.quantum.operators._pauli_operators"],
          "pauli_text": ["orquestra.quantum.operators._pauli_operators"],
-         "expr": ["orquestra.quantum.circuits.symbolic"]}[TARGET]
+         "expr": ["orquestra.quantum.circuits.symbolic"],
+         "pauli_arith": ["orquestra.quantum.operators._pauli_operators"],
+         "shots": ["orquestra.quantum.circuits._itertools", "orquestra.quantum.utils"],
+         "marginal": ["orquestra.quantum.distributions._measurement_outcome_distribution"]}[TARGET]
 with atheris.instrument_imports(include=INSTR):
     import orquestra.quantum.operators._pauli_operators  # noqa: F401
     import orquestra.quantum.circuits.symbolic.sympy_expressions  # noqa: F401
     import orquestra.quantum.circuits.symbolic.translations  # noqa: F401
+    import orquestra.quantum.circuits._itertools  # noqa: F401
+    import orquestra.quantum.utils  # noqa: F401
+    import orquestra.quantum.distributions._measurement_outcome_distribution  # noqa: F401
 
 from vlib import harness  # noqa: E402
 
@@ -42,10 +48,30 @@ def DECODE(data):
 ORACLE = fuzzlib.ORACLES[TARGET]
 
 
+_SEEN = {"n": 0, "nt": set(), "samples": []}
+
+
+def _dump_stats():
+    path = os.environ.get("OQ_FUZZ_STATS")
+    if path:
+        with open(path + ".tmp", "w") as f:
+            json.dump({"executions": _SEEN["n"], "nt_hashes": sorted(_SEEN["nt"]), "samples": _SEEN["samples"]}, f, default=repr)
+        os.replace(path + ".tmp", path)
+
+
 def TestOneInput(data):
     spec = DECODE(data)
     try:
-        ORACLE(spec)
+        nt = ORACLE(spec)
+        _SEEN["n"] += 1
+        if nt and len(_SEEN["nt"]) < 200000:
+            h = harness.spec_hash(spec)
+            if h not in _SEEN["nt"]:
+                _SEEN["nt"].add(h)
+                if len(_SEEN["samples"]) < 3:
+                    _SEEN["samples"].append(spec)
+        if _SEEN["n"] % 2000 == 0:
+            _dump_stats()
     except harness.Violation as v:
         with open(os.environ["OQ_FUZZ_CRASH"], "w") as f:
             json.dump({"spec": spec, "message": str(v), "target": TARGET}, f, default=repr)
